@@ -181,6 +181,7 @@ def run(ctx: Ctx) -> None:
         # tie of the modelled block sub-parser (mini_wellformed is a theorem about exactly this model)
         from . import miniblock
         miniblock.tie(ctx, drv, 2000 if quick else 50000)
+        miniblock.tie_quote(ctx, drv, 2500 if quick else 60000)
     finally:
         drv.close()
     ctx.partial += [
@@ -189,7 +190,9 @@ def run(ctx: Ctx) -> None:
         "balance and levels of the block-level stream follow from the segment contract K5 (engine theorem loop_segs); K5 is "
         "PROVED for code, fence, hr, heading, paragraph (Props/C02b.lean segOK_*), giving the unconditional mini_wellformed "
         "(levelled from 0, balanced, SyntaxTreeNode builds) for that sub-parser, whose model is tied by the `miniblock` "
-        "differential runs; for the other rules K5 is monitored on the implementation (contract monitor), not proved",
+        "differential runs; and for the container rule blockquote (Props/C02c.lean: quote_tokens, QuoteWrap, qChain_seg by "
+        "induction on the nesting budget), giving q_wellformed for the sub-parser with block quotes nested to any depth "
+        "(tie: `qblock`); for the other rules K5 is monitored on the implementation (contract monitor), not proved",
     ]
 
 
